@@ -102,7 +102,11 @@ def axis_interval(rng, a, o, tol):
     mode = rng.random()
     if mode < 0.06:
         span = F(0)
-    elif mode < 0.25:
+    elif mode < 0.22:
+        e = rng.choice(EPS)                                            # a whole number of pixels +- eps, eps on both sides of tol
+        q0 = F(rng.choice([0, 1, -3, 37, 1001])) + rng.choice([F(0), e, -e, F(1, 4), F(rng.randint(-512, 512), 1024)])
+        span = rng.choice([1, 2, 3, 6, 30, 1000]) + rng.choice([e, -e, t - e, -(t - e), t, -t, t + e, -(t + e), t / 2, -t / 2, F(0)])
+    elif mode < 0.35:
         span = rng.choice([F(1, 128), F(1, 2), F(1), abs(t), abs(t) + EPS[0], 2 * abs(t), F(3, 4), 1 - abs(t), 1 + abs(t)])
     elif mode < 0.8:
         span = abs(F(near_int(rng, t)) - q0) + rng.choice([0, 1, 2, 5, 100, 10 ** 4, 10 ** 6])
@@ -125,7 +129,7 @@ def bbox_case(rng):
     else:
         ry = rand_res(rng)
         resolution = resxy_(rx, ry)
-    tight = rng.random() < 0.2
+    tight = rng.random() < 0.3
     anchor = rand_anchor(rng)
     tol = rng.choice(TOLS)
     off = anchor_offsets(tight, anchor)
@@ -483,8 +487,14 @@ def axis_ok(x0, x1, res, off, tol, tx, n):
         ok = ok and hi - F(x1) < a
     if off is None:
         ok = ok and F(tx) == (F(x0) if res > 0 else F(x1))             # floating: starts exactly on the region's edge
+        if n >= 2 and t <= F(1, 2):
+            ok = ok and (n - 1) * a <= F(x1) - F(x0) - t * a           # minimal count: n-1 pixels would not cover up to tol
     else:
         ok = ok and (F(tx) / a - off).denominator == 1                 # edges at (integer + anchor) pixels
+        if t <= F(1, 2):                                               # minimal count among aligned grids covering up to tol
+            ok = ok and F(x0) + t * a <= lo + a
+            if n >= 2:
+                ok = ok and hi - a <= F(x1) - t * a
     return ok, f"[{x0!r},{x1!r}] res={res!r}: origin={tx!r} n={n} -> [{float(lo)!r},{float(hi)!r}]"
 
 
